@@ -1386,8 +1386,7 @@ func c01Run(c *Ctx) {
 				continue
 			}
 			if sig2 := e.signature(w2); sig1 != sig2 {
-				c.Error("NONDETERMINISM: config %s built twice from the same seed gives different credentials or observations (%s vs %s)", ref.K, sig1, sig2)
-				continue
+				c.Unstable("config %s built twice from the same seed gives different credentials or observations (%s vs %s)", ref.K, sig1, sig2)
 			}
 			w = w2
 			c.Inc("determinism_selftests")
